@@ -214,6 +214,10 @@ void json_tokener_reset(struct json_tokener *tok)
 		json_tokener_reset_level(tok, i);
 	tok->depth = 0;
 	tok->err = json_tokener_success;
+	/* Forget a partially decoded \uXXXX escape / pending high surrogate too. */
+	tok->high_surrogate = 0;
+	tok->ucs_char = 0;
+	tok->st_pos = 0;
 }
 
 struct json_object *json_tokener_parse(const char *str)
